@@ -109,15 +109,16 @@ def run(ctx):
                     add(proto, l, kca, kcb, mode, at, part, kind, who, model=c)
         # octet flips: positions enumerated (all of them in the thorough tier), the mask is seeded
         if at.startswith("M") and (kind == "flip" or kind == "off"):
-            for l in ([128] if ctx.quick else [128, 256]):
+            for l in ([128] if ctx.quick else [128, 192, 256]):
                 n = part_len(proto, part, l, kcb == "1")
                 if ctx.quick:
                     js = sorted(set([0, n // 2 - 1, n // 2, n - 1])) if part in POINT_PARTS else sorted(set([0, n // 2, n - 1]))
                 else:
-                    js = range(n) if l == 128 else sorted(set([0, n // 2 - 1, n // 2, n - 1]))
+                    js = range(n)                     # every octet of every message part, on all three curves
                 for j in js:
-                    for mode in (("steps", "run") if ctx.quick or j % 4 == 0 else ("steps",)):
-                        add(proto, l, kca, kcb, mode, at, part, "flip", who, j=j, mask=1 << ctx.rng.randrange(8), model=None)
+                    for rep in range(1 if ctx.quick else 2):          # thorough: two seeded masks per position
+                        for mode in (("steps", "run") if ctx.quick or j % 4 == 0 else ("steps",)):
+                            add(proto, l, kca, kcb, mode, at, part, "flip", who, j=j, mask=1 << ctx.rng.randrange(8), model=None)
     drv = vlib.harness("drv_bake", ["drv_bake.c"], "rel")
     shards = vlib.shard(list(range(len(cmds))), 6)
     outs = vlib.parallel([(lambda sh=sh: vlib.run_harness(drv, [], stdin="".join(cmds[i] for i in sh).encode(), env=env, timeout=3000)) for sh in shards], n=6)
@@ -197,7 +198,7 @@ def run(ctx):
     ev.cov["traces_validated_against_impl"] = n + nrep
     ev.cov["curves"] = sorted(set(x["l"] for x in lines))
     ev.cov["exhaustive"] = ("model: protocol x kca x kcb x (none | set-up corruption | part x kind) x interleavings; concrete: every model case at l=128 "
-                            "(step by step and through RunA/RunB)%s; octet flips at %s" % ("" if ctx.quick else " and at l=192, 256", "4 positions per point part / 3 per opaque part" if ctx.quick else "every position (l=128)"))
+                            "(step by step and through RunA/RunB)%s; octet flips at %s" % ("" if ctx.quick else " and at l=192, 256", "4 positions per point part / 3 per opaque part" if ctx.quick else "every position of every part, two masks, all three curves"))
     for x in [y for y in lines if y["at"] != "none"][:1] + [y for y in lines if y["kind"] == "flip" and y["pt"]][:1] + lines[:1]:
         ev.sample({k: (v if not isinstance(v, list) or len(v) <= 16 else v[:16] + ["...(%d)" % len(v)]) for k, v in x.items()})
     ev.assume("the step-by-step content of the protocols follows STB 34.101.66 / 34.101.79 as described in bake.h / btok.h and the step comments of bake.c, btok_bauth.c; "
